@@ -276,3 +276,35 @@ def lint_store_through_copy(rep: Report, fi: FuncInfo, rule: str = "COPY-STORE")
                 n += 1
                 rep.violation(rule, fi, st, f"the store goes through `.{t.value.func.attr}(...)`, which returns a temporary copy whenever the tensor's memory layout does not allow a view (transposed / permuted / sliced inputs, whose strides survive clone() and arithmetic): for such inputs the write is silently lost and the tensor stays unchanged", node=st)
     return n
+
+
+RNG_STATE_CALLS = ("torch.manual_seed", "torch.cuda.manual_seed", "torch.cuda.manual_seed_all", "torch.seed", "torch.set_rng_state", "torch.random.set_rng_state", "torch.cuda.set_rng_state", "torch.random.manual_seed", "np.random.seed", "numpy.random.seed", "random.seed")
+DRAW_CALLS = ("rand", "rand_like", "randn", "randn_like", "randint", "randint_like", "bernoulli", "normal", "poisson", "multinomial", "randperm", "uniform_", "normal_", "exponential_", "bernoulli_", "random_", "sample", "rsample")
+
+
+def lint_rng_discipline(rep: Report, fi: FuncInfo, rule: str = "RNG") -> int:
+    """The noise of a channel is drawn from the generator that advances from call to call.  Recognised wrong: draws inside
+    `torch.random.fork_rng` (the state is restored on exit, so the next call repeats the same variates), a generator
+    re-seeded / a state restored inside the method, a draw from a `torch.Generator` seeded with a constant in the
+    method.  Returns the number of obligations emitted (1)."""
+    bad = None
+    set_parents(fi.node)
+    for w in ast.walk(fi.node):
+        if isinstance(w, ast.With) and any(isinstance(it.context_expr, ast.Call) and (call_name(it.context_expr) or "").split(".")[-1] == "fork_rng" for it in w.items):
+            draws = [c for c in ast.walk(w) if isinstance(c, ast.Call) and (call_name(c) or unparse(c.func)).split(".")[-1] in DRAW_CALLS]
+            if draws:
+                bad = (draws[0], f"`{unparse(draws[0])[:60]}` is drawn inside `fork_rng`: the generator state is restored when the block ends, so the next call (with nothing else advancing the generator in between) draws the very same variates - the noise of successive calls is identical instead of independent")
+                break
+    if bad is None:
+        for c in ast.walk(fi.node):
+            if isinstance(c, ast.Call) and (call_name(c) or "") in RNG_STATE_CALLS:
+                bad = (c, f"`{unparse(c)[:60]}` sets the state of the random generator inside the method: every call then draws the same (or a data-independent, repeated) sequence of variates")
+                break
+            if isinstance(c, ast.Call) and isinstance(c.func, ast.Attribute) and c.func.attr == "manual_seed" and c.args and all(isinstance(a, ast.Constant) for a in c.args) and "Generator" in unparse(c.func.value):
+                bad = (c, f"`{unparse(c)[:60]}` seeds a fresh generator with a constant inside the method: every call repeats the same variates")
+                break
+    if bad:
+        rep.violation(rule, fi, f"{fi.name}: {unparse(bad[0])[:70]}", bad[1], node=bad[0])
+    else:
+        rep.ok(rule, fi, f"{fi.name}: random draws", "taken from the generator that advances across calls (no fork / re-seed / state restore in the method)", nontrivial=False)
+    return 1
